@@ -105,6 +105,9 @@ func PostableSilenceToProto(s *open_api_models.PostableSilence) (*silencepb.Sile
 
 	matcherSet := &silencepb.MatcherSet{}
 	for _, m := range s.Matchers {
+		if m == nil {
+			return nil, fmt.Errorf("null entry in the list of matchers")
+		}
 		matcher := &silencepb.Matcher{
 			Name:    *m.Name,
 			Pattern: *m.Value,
